@@ -5,6 +5,8 @@
        duplicate-key ValueError), `count_neighbors`                         -> Lean `Ext.genNewPairs`, `Ext.countNeighbors`, ...
   fcp  `Lattice.find_coupling_pairs(max_dx, cutoff)` on lattices with integer basis / positions (exact squared
        distances)                                                            -> Lean `Ext.findCouplingPairs`
+  bc   the `bc` argument: `boundary_conditions` setter (bc, bc_shift) / getter and the bc checks of `test_sanity`
+       through `Lattice.__init__`                                            -> Lean `Ext.bcSetter`, `bcGetter`, `initBC`
 
 A case is a small JSON dict `{part:'ext', kind:..., ...}` holding the complete input (replays exactly).  The driver is
 lean/drivers/C19.lean (lines with a field "ext").
@@ -77,10 +79,38 @@ def gen_fcp(rng):
     return dict(part='ext', kind='fcp', basis=basis, pos=pos, m=m, cut2=cut2)
 
 
+BC_GOOD = ['open', 'periodic']
+BC_BAD = ['closed', 'Open', '', 'cylinder', 'x']
+
+
+def gen_bc(rng):
+    dim = rng.choice([1, 2, 2, 2, 3, 3])
+    bc_mps = rng.choice(['finite', 'infinite', 'segment'])
+    r = rng.random()
+    if r < 0.12:
+        arg = rng.choice(BC_GOOD)
+    elif r < 0.17:
+        arg = rng.choice(BC_BAD)
+    else:
+        n = dim if rng.random() < 0.9 else max(0, dim + rng.choice([-1, 1, 2]))
+        arg = []
+        for a in range(n):
+            q = rng.random()
+            if q < 0.04:
+                arg.append(rng.choice(BC_BAD))
+            elif a == 0:
+                arg.append(rng.choice(BC_GOOD) if q < 0.96 else rng.choice([0, 1, -1]))
+            elif q < 0.55:
+                arg.append(rng.choice(BC_GOOD))
+            else:
+                arg.append(rng.choice([0, 0, 1, -1, 2, -2, 3]))
+    return dict(part='ext', kind='bc', dim=dim, arg=arg, bc_MPS=bc_mps, as_tuple=rng.random() < 0.3)
+
+
 def gen_cases(rng, n):
     out = []
     for k in range(n):
-        out.append(gen_msp(rng) if k % 2 == 0 else gen_fcp(rng))
+        out.append(gen_msp(rng) if k % 3 == 0 else gen_fcp(rng) if k % 3 == 1 else gen_bc(rng))
     return out
 
 
@@ -298,9 +328,88 @@ def eval_fcp(case):
                       'fcp.groups=%d' % min(len(real), 6)])
 
 
+def _state(lat):
+    return [[bool(b) for b in lat.bc], None if lat.bc_shift is None else [int(x) for x in lat.bc_shift]]
+
+
+def _entries(bc):
+    return [int(b) if isinstance(b, (int, np.integer)) and not isinstance(b, bool) else str(b) for b in bc]
+
+
+def eval_bc(case):
+    from tenpy.models import lattice as la
+    dim, arg, bc_mps = case['dim'], case['arg'], case['bc_MPS']
+    real_arg = tuple(arg) if (isinstance(arg, list) and case['as_tuple']) else (list(arg) if isinstance(arg, list) else arg)
+    minput = dict(ext='bc', dim=dim, arg=arg, finite=bc_mps == 'finite')
+    oracle = []
+
+    def fail(sig, det):
+        oracle.append((sig, str(det)[:240]))
+    is_list = isinstance(arg, list)
+    wellformed = (arg in BC_GOOD) if not is_list else (
+        len(arg) == dim and all(isinstance(e, int) or e in BC_GOOD for e in arg) and not isinstance(arg[0], int))
+    lat = la.Lattice([2] * dim, [None], bc='periodic', bc_MPS='infinite')
+    real = {}
+    try:
+        lat.boundary_conditions = real_arg
+        real['set'] = _state(lat)
+    except (ValueError, KeyError, IndexError) as e:
+        real['set'] = 'error'
+        if wellformed:
+            fail('boundary_conditions.setter-raised-for-a-valid-argument', f'{arg}: {type(e).__name__}')
+    if real['set'] != 'error':
+        try:
+            real['get'] = _entries(lat.boundary_conditions)
+        except (AssertionError, IndexError):
+            real['get'] = 'error'
+    else:
+        real['get'] = None
+    try:
+        lat2 = la.Lattice([2] * dim, [None], bc=real_arg, bc_MPS=bc_mps)
+        real['init'] = _state(lat2)
+    except (ValueError, KeyError, IndexError) as e:
+        real['init'] = 'error'
+        lat2 = None
+    # ---- independent oracle
+    if wellformed:
+        full = [arg] * dim if not is_list else arg
+        want_bc = [e == 'open' for e in full]
+        shifts = [e if isinstance(e, int) else 0 for e in full[1:]]
+        want = [want_bc, shifts if any(shifts) else None]
+        if real['set'] != 'error' and real['set'] != want:
+            fail('boundary_conditions.setter-state-differs-from-the-argument', (arg, real['set']))
+        shown = ['periodic' if e == 0 and isinstance(e, int) else e for e in full]
+        if real['get'] not in (None, shown):
+            fail('boundary_conditions.getter-does-not-show-what-was-set', (arg, real['get']))
+        if real['get'] not in (None, 'error'):
+            lat3 = la.Lattice([2] * dim, [None], bc='periodic', bc_MPS='infinite')
+            try:
+                lat3.boundary_conditions = lat.boundary_conditions
+                if _state(lat3) != real['set']:
+                    fail('boundary_conditions.setter-of-getter-is-not-the-identity', (arg, _state(lat3), real['set']))
+            except Exception as e:  # noqa: BLE001
+                fail('boundary_conditions.setter-rejects-the-getter-output', (arg, type(e).__name__))
+        must_reject = want_bc[0] and bc_mps != 'finite'
+        if must_reject and real['init'] != 'error':
+            fail('Lattice.init.accepts-open-x-with-infinite-MPS', (arg, bc_mps))
+        if not must_reject and real['init'] != want:
+            fail('Lattice.init.bc-state-differs-from-the-argument', (arg, bc_mps, real['init']))
+    else:
+        if real['init'] != 'error':
+            fail('Lattice.init.accepts-a-malformed-bc-argument', (arg, real['init']))
+        if is_list and arg and isinstance(arg[0], int) and real['set'] != 'error':
+            fail('boundary_conditions.setter-accepts-a-shift-in-x', arg)
+    return dict(model_input=minput, real=real, oracle=oracle,
+                hist=['bc.dim=%d' % dim, 'bc.arg=' + ('wellformed' if wellformed else 'malformed'),
+                      'bc.shift=' + ('yes' if is_list and any(isinstance(e, int) and e != 0 for e in arg) else 'no'),
+                      'bc.init=' + ('error' if real['init'] == 'error' else 'ok')])
+
+
 def eval_case(case):
     with warnings.catch_warnings():
         warnings.simplefilter('ignore')
+        if case['kind'] == 'bc':
+            return eval_bc(case)
         return eval_msp(case) if case['kind'] == 'msp' else eval_fcp(case)
 
 
@@ -333,7 +442,8 @@ def run_cases(cases, use_model=True):
             res.extra['ext_driver_error'] = str(e)[:800]
             outs = {k: {'error': 'driver failed'} for k in idx}
     for k, (case, ev) in enumerate(zip(cases, evs)):
-        nontrivial = (case['kind'] == 'msp' and case['nsp'] > 1) or (case['kind'] == 'fcp' and case['m'] > 0)
+        nontrivial = ((case['kind'] == 'msp' and case['nsp'] > 1) or (case['kind'] == 'fcp' and case['m'] > 0)
+                      or (case['kind'] == 'bc' and isinstance(case['arg'], list) and case['dim'] > 1))
         res.note_case(case, nontrivial)
         res.count('ext=' + case['kind'])
         for h in ev.get('hist', []):
@@ -353,7 +463,8 @@ def run_cases(cases, use_model=True):
             if m != ev['real']:
                 what = 'value'
                 if isinstance(m, dict) and isinstance(ev['real'], dict):
-                    what = next((f for f in ('umap', 'tile', 'pos', 'pairs', 'cn') if m[f] != ev['real'][f]), 'value')
+                    what = next((f for f in ('umap', 'tile', 'pos', 'pairs', 'cn', 'set', 'get', 'init')
+                                 if f in m and m[f] != ev['real'].get(f)), 'value')
                 res.fail('correspondence', f'ext.model-vs-impl.{case["kind"]}.{what}',
                          f'impl {str(ev["real"])[:300]} model {str(m)[:300]}', case)
     return res
@@ -361,13 +472,13 @@ def run_cases(cases, use_model=True):
 
 def run(ctx, factor=1):
     rng = ctx.sub_rng('ext')
-    cases = gen_cases(rng, 260 * factor)
+    cases = gen_cases(rng, 390 * factor)
     return run_cases(cases)
 
 
 def search(ctx, factor=4):
     rng = ctx.sub_rng('ext-search')
-    return run_cases(gen_cases(rng, 260 * factor), use_model=False)
+    return run_cases(gen_cases(rng, 390 * factor), use_model=False)
 
 
 def replay_case(case):
